@@ -414,6 +414,39 @@ class _IH:
         if isinstance(base, Opaque) and base.tag.startswith('trajectory.'):
             self.traj_store = (idx, v)
 
+    choice = None
+    data_test = None
+
+    def branch(self, ev, st, env):
+        return _data_branch(self, ev, st, env)
+
+
+def _data_branch(self, ev, st, env):
+    """data-dependent tests on the supplied state (e.g. `if abs(pva.VD) > 0:`): the rule runs
+    one evaluation per outcome (self.choice) and records the deciding conjunct"""
+    if True:
+        if self.choice is None:
+            return None
+        test = st.test
+        conj = test.values if isinstance(test, ast.BoolOp) and isinstance(test.op, ast.And) \
+            else [test]
+        dep = None
+        for c_ in conj:
+            try:
+                t = ev.truth(ev.eval(c_, env))
+            except Unsupported:
+                t = None
+            if t is False:
+                return False
+            if t is None:
+                if dep is not None:
+                    return None
+                dep = c_
+        if dep is None:
+            return True
+        self.data_test = dep
+        return self.choice
+
 
 def alt_freeze(ctx):
     ctx.rule('ALT-FREEZE', 'with_altitude=False: every writer of the velocity carrier stores a '
@@ -478,35 +511,63 @@ def alt_freeze(ctx):
     ok = isinstance(pva.cols['VD'], Rat) and A2.eq(pva.cols['VD'], A2.sym('VD'))
     ctx.ob('ALT-FREEZE', ok, None, "constructor leaves the caller's state untouched", f=init,
            key='init-pure', why="constructor zeroes VD in the caller's Series")
-    # (c) set_pva
+    # (c) set_pva - one evaluation per outcome of a test on the supplied state
     sp = c.methods['set_pva']
-    h = _IH()
-    ev3 = SymEval(repo, Alg(), hooks=h)
-    A3 = ev3.A
-    pva3 = Rec({k: A3.sym(k) for k in repo.const('util.TRAJECTORY_COLS')}, 'series')
-    o3 = Obj(c)
-    o3.attrs['with_altitude'] = False
-    bufs = {}
-    for role, i in (('lla', 1), ('vel', 2), ('mat', 3)):
-        nm = norm_text(call.args[i]).split('.')[-1]
-        bufs[role] = PArr(nm, (3, 3) if role == 'mat' else (3,))
-        o3.attrs[nm] = bufs[role]
-    o3.attrs['trajectory'] = Opaque('trajectory')
+
+    def run_setpva(choice):
+        h_ = _IH()
+        h_.choice = choice
+        ev_ = SymEval(repo, Alg(), hooks=h_)
+        A_ = ev_.A
+        pva_ = Rec({k: A_.sym(k) for k in repo.const('util.TRAJECTORY_COLS')}, 'series')
+        o_ = Obj(c)
+        o_.attrs['with_altitude'] = False
+        bufs_ = {}
+        for role, i in (('lla', 1), ('vel', 2), ('mat', 3)):
+            nm = norm_text(call.args[i]).split('.')[-1]
+            bufs_[role] = PArr(nm, (3, 3) if role == 'mat' else (3,))
+            o_.attrs[nm] = bufs_[role]
+        o_.attrs['trajectory'] = Opaque('trajectory')
+        ev_.call_function(sp, [pva_], {}, o_)
+        return h_, ev_, A_, pva_, bufs_
     try:
-        ev3.call_function(sp, [pva3], {}, o3)
-    except Unsupported as e:
-        raise AnalysisError('Integrator.set_pva not analysable: %s' % e)
-    vds = [v for k, v in bufs['vel'].stores.items() if k[1:] == (2,)]
-    ctx.ob('ALT-FREEZE', len(vds) == 1 and A3.is_zero(vds[0]), None,
-           'set_pva stores vertical velocity 0', f=sp, key='setpva-vd',
-           why='set_pva copies the supplied vertical velocity verbatim when altitude is '
-               'switched off: the next step averages it into the altitude')
-    ts = h.traj_store
-    ok = ts is not None and isinstance(ts[1], Rec) and \
-        A3.is_zero(ev3.rat(ts[1].cols.get('VD', A3.sym('?'))))
-    ctx.ob('ALT-FREEZE', ok, None, 'set_pva stores vertical velocity 0 in the trajectory row',
-           f=sp, key='setpva-traj',
-           why='the overwritten trajectory row keeps a non-zero vertical velocity')
+        h, ev3, A3, pva3, bufs = run_setpva(None)
+        cases = [(None, h, ev3, A3, pva3, bufs)]
+    except Unsupported:
+        try:
+            cases = [(ch,) + run_setpva(ch) for ch in (True, False)]
+        except Unsupported as e:
+            raise AnalysisError('Integrator.set_pva not analysable: %s' % e)
+    for ch, h, ev3, A3, pva3, bufs in cases:
+        tag = '' if ch is None else ' [`%s` is %s]' % (norm_text(h.data_test)[:40], ch)
+        # what a false test tells about the supplied value under IEEE semantics: only an
+        # inequality test `x != 0` guarantees x == 0 when false (it is true for NaN);
+        # `abs(x) > 0`, `x > 0 or x < 0`, ... are false for NaN as well
+        implied = {}
+        if ch is False and isinstance(h.data_test, ast.Compare) and \
+                len(h.data_test.ops) == 1 and isinstance(h.data_test.ops[0], ast.NotEq):
+            l_, r_ = h.data_test.left, h.data_test.comparators[0]
+            for x_, y_ in ((l_, r_), (r_, l_)):
+                if isinstance(y_, ast.Constant) and y_.value == 0 and \
+                        norm_text(x_).replace("['", '.').replace("']", '').endswith('.VD'):
+                    implied = {'VD': A3.const(0)}
+        sub = (lambda v: A3.subst(v, implied)) if implied else (lambda v: v)
+        vds = [sub(v) for k, v in bufs['vel'].stores.items() if k[1:] == (2,)]
+        why_nan = ''
+        if ch is False and not implied:
+            why_nan = (' (when `%s` is false the value is stored as supplied; the test is false '
+                       'for NaN too, which is neither zero nor neutralised)'
+                       % norm_text(h.data_test)[:40])
+        ctx.ob('ALT-FREEZE', len(vds) == 1 and A3.is_zero(vds[0]), None,
+               'set_pva stores vertical velocity 0' + tag, f=sp, key='setpva-vd' + tag,
+               why='set_pva copies the supplied vertical velocity verbatim when altitude is '
+                   'switched off: the next step averages it into the altitude' + why_nan)
+        ts = h.traj_store
+        ok = ts is not None and isinstance(ts[1], Rec) and \
+            A3.is_zero(sub(ev3.rat(ts[1].cols.get('VD', A3.sym('?')))))
+        ctx.ob('ALT-FREEZE', ok, None, 'set_pva stores vertical velocity 0 in the trajectory row'
+               + tag, f=sp, key='setpva-traj' + tag,
+               why='the overwritten trajectory row keeps a non-zero vertical velocity' + why_nan)
     ok = ts is not None and isinstance(ts[1], Rec) and \
         A3.eq(ev3.rat(ts[1].cols.get('alt', A3.const(0))), A3.sym('alt'))
     alts = [v for k, v in bufs['lla'].stores.items() if k[1:] == (2,)]
@@ -626,8 +687,14 @@ from ..rotmodel import RotHooks          # noqa: E402
 
 
 class _SH(RotHooks):
+    choice = None
+    data_test = None
+
     def __init__(self):
         self.traj_store = None
+
+    def branch(self, ev, st, env):
+        return _data_branch(self, ev, st, env)
 
     def call(self, ev, q, node, args, kwargs, env):
         r = RotHooks.call(self, ev, q, node, args, kwargs, env)
@@ -661,10 +728,13 @@ def carrier_sync(ctx):
     groups = {'lla': repo.const('util.LLA_COLS'), 'vel': repo.const('util.VEL_COLS')}
     rph_c = repo.const('util.RPH_COLS')
     mfr = repo.function('transform.mat_from_rph')
-    for wa in (True, False):
-        for mname in ('__init__', 'set_pva'):
+    todo = [(wa, mname, None) for wa in (True, False) for mname in ('__init__', 'set_pva')]
+    while todo:
+        wa, mname, choice = todo.pop(0)
+        if True:
             m = c.methods[mname]
             h = _SH()
+            h.choice = choice
             ev = SymEval(repo, Alg(), hooks=h)
             A = ev.A
             pva = Rec({k: A.sym(k) for k in tcols}, 'series')
@@ -690,8 +760,15 @@ def carrier_sync(ctx):
                     for role in names:
                         rows[role] = {k[1:]: v for k, v in bufs[role].stores.items()}
             except Unsupported as e:
+                if choice is None:
+                    # a test on the supplied state: one evaluation per outcome
+                    todo[:0] = [(wa, mname, True), (wa, mname, False)]
+                    continue
                 raise AnalysisError('Integrator.%s not analysable: %s' % (mname, e))
             ctx.need(isinstance(traj, Rec), 'Integrator.%s: trajectory row not recognised' % mname)
+            if choice is not None:
+                wa = '%s, `%s` is %s' % (wa, norm_text(h.data_test)[:30] if h.data_test is not None
+                                         else '?', choice)
             for role, cols in groups.items():
                 ok = all((i,) in rows.get(role, {}) and
                          A.eq(rows[role][(i,)], ev.rat(traj.cols[cname]))
